@@ -17,7 +17,7 @@ RULE = ('Every element and composite node of every shipped map file that loads (
 ASSUMPTIONS = ['when a value contains a control character only the control-character code (and length codes) are asserted: the implementation deliberately stops there',
                'a missing required composite may be reported with code 1 or 2, a whole not-used composite with 5, 10 or I10 (the property does not pin these)',
                'nodes whose data element is undefined (C16 finding) are skipped; maps that cannot be loaded are skipped']
-REQUIRED_COUNTERS = ['element-nodes', 'composite-nodes', 'evals:element', 'evals:composite', 'evals:with-qualifier', 'evals:with-exclusion', 'expected:1', 'expected:10', 'expected:4', 'expected:5',
+REQUIRED_COUNTERS = ['evals:exclusion-through-params', 'element-nodes', 'composite-nodes', 'evals:element', 'evals:composite', 'evals:with-qualifier', 'evals:with-exclusion', 'expected:1', 'expected:10', 'expected:4', 'expected:5',
                      'expected:6', 'expected:7', 'expected:8', 'expected:9', 'expected:none']
 MIN_CASES = {'quick': 150000, 'thorough': 2000000}
 WATCHDOG_S = {'quick': 1200, 'thorough': 7200}
@@ -266,12 +266,74 @@ def judge_composite(ctx, fn, rc, mc, charset, icvn, DE, CODES, rng, seen_nt):
             ctx.viol('composite:result:%s' % ('false-without-error' if res is False else 'true-with-error'), 'the boolean result disagrees with the errors reported', case, {'result': res, 'got': got})
 
 
+def exclusion_through_params(ctx, DE, CODES, files):
+    """The exclusion list as a user gives it: the comma separated exclude_external_codes parameter, parsed by the real
+    ExternalCodes constructor.  For every external code set t: with every OTHER set excluded, t is still enforced and the
+    others are not; with only t excluded the opposite."""
+    import pyx12.map_if
+    import pyx12.params
+    import pyx12.segment
+    import pyx12.error_handler
+    allsets = sorted(CODES)
+    # one map per external set in the quick tier, every map in the thorough tier
+    uses = {}
+    for fn in files:
+        try:
+            r = refmap.load(fn)
+        except Exception:
+            continue
+        for n in refmap.walk(r):
+            if n.kind == 'ele' and n.external and n.data_ele in DE and not n.codes and n.usage != 'N':
+                uses.setdefault(n.external, {}).setdefault(fn, n.path())
+    jobs = []
+    for t in allsets:
+        fns = sorted(uses.get(t, {}))
+        if ctx.quick:
+            fns = fns[:1]
+        for fn in fns:
+            jobs.append((t, fn))
+    for ji, (t, fn) in enumerate(jobs):
+        if not ctx.mine(('excl', t, fn)):
+            continue
+        others = [x for x in allsets if x != t]
+        for setting, enforced_t in ((','.join(others), True), (t, False), (','.join(others[:2] + [t]), False), (None, True)):
+            param = pyx12.params.params()
+            if setting is not None:
+                param.set('exclude_external_codes', setting)
+            try:
+                m = pyx12.map_if.load_map_file(fn, param)
+            except Exception:
+                break
+            r = refmap.load(fn)
+            for (re_, me, comp) in pairs(fn, r, m):
+                if re_.kind != 'ele' or not re_.external or re_.codes or re_.data_ele not in DE or re_.usage == 'N' or re_.external not in CODES:
+                    continue
+                excluded = (setting is not None and re_.external in setting.split(','))
+                dtype, mn, mx = DE[re_.data_ele]
+                bad = [c for c in ('ZQ', 'ZQZ', 'Z', 'ZQZQ', 'ZQZQZ', 'ZZZZZZZZZ') if mn <= len(c) <= mx and c not in CODES[re_.external]]
+                if not bad or dtype not in ('ID', 'AN'):
+                    continue
+                v = bad[0]
+                errh = pyx12.error_handler.errh_list()
+                ctx.count('evals:exclusion-through-params')
+                res = me.is_valid(pyx12.segment.Element(v), errh)
+                got = sorted(e[0] for e in errh.err_ele)
+                want = [] if excluded else ['7']
+                if got != want or (res is False) != bool(got):
+                    ctx.viol('exclusion:%s' % ('not-excluded-set-accepted' if not excluded else 'excluded-set-still-enforced'),
+                             'the exclude_external_codes parameter changes the enforcement of a code set it does not name (or fails to switch off one it names)',
+                             {'map': fn, 'node': re_.path(), 'external': re_.external, 'exclude_external_codes': setting, 'value': v}, {'got': got, 'expected': want, 'result': res})
+                if re_.external == t:
+                    break       # one node of the target set is enough per setting
+
+
 def run(ctx):
     import pyx12.map_if
     import pyx12.params
     DE = refmap.load_dataele()
     CODES = refmap.load_codes()
     files = refmap.map_files()
+    exclusion_through_params(ctx, DE, CODES, files)
     seen_sig = set()
     seen_nt = set()
     total = 0
